@@ -433,12 +433,15 @@ class Gen:
             cat = "plain"
         self.units.append({"name": uname, "method": method, "kind": kind, "variant": variant, "ctor": ctor,
                            "label_dir": label_dir, "pad": pad if label_param else None, "base": base if label_param else None,
+                           # rel8-only branch over a distance no rel8 can span: every operand tuple must be
+                           # refused, so an unsatisfiable witness is the expected outcome
+                           "refusal_only": bool(label_param and sp.get("branch") == "short" and base >= 128),
                            "avx": avx_class, "cat": cat,
                            "draws": [{"name": n, "type": t} for n, t in draws]})
 
     # -- groups ------------------------------------------------------------------------------
     def make_groups(self):
-        limits = {"plain": int(os.environ.get("C07_GROUP_PLAIN", "12")), "mem": int(os.environ.get("C07_GROUP_MEM", "6")),
+        limits = {"plain": int(os.environ.get("C07_GROUP_PLAIN", "16")), "mem": int(os.environ.get("C07_GROUP_MEM", "8")),
                   "branch": int(os.environ.get("C07_GROUP_BRANCH", "4")), "rl": int(os.environ.get("C07_GROUP_RL", "6"))}
         only = [x for x in os.environ.get("C07_ONLY_UNITS", "").split(",") if x]
         if only:
